@@ -71,6 +71,10 @@ def event (st : St) (name : String) (n : Nat) : St × String :=
   | "skipped" =>
     -- OnCopySkipped returned ok: the node is done
     if present c st.s n then go [.existsT n] st
+    else if aliasInFlight st n && st.s.st n == .claimed then
+      -- the destination answered "exists" because the same bytes are being pushed under
+      -- another media type: the inner push has completed, its wrapper has not logged it yet
+      ({ st with s := { st.s with st := fupd st.s.st n .done } }, "ok")
     else ({ st with rejected := true }, "REJECT(skipped-but-absent)")
   | "preCopy" =>
     -- every successor's completion must already be in the log
